@@ -480,6 +480,14 @@ namespace net
       if (ladder && g.chance(1, 5))
         burst(ops);
       ops.push_back(gen_op(g, create.pick(g), dlk));
+      // the same argument list handed to a second construct (callers do ask for "at most one" and "exactly one" of the same literals)
+      const std::string nm = ops.back().name;
+      if ((nm == "amo" || nm == "exo" || nm == "conj" || nm == "disj") && g.chance(1, 4))
+      {
+        Op again = ops.back();
+        again.name = nm == "amo" ? "exo" : nm == "exo" ? "amo" : nm == "conj" ? "disj" : "conj";
+        ops.push_back(again);
+      }
     }
     for (int i = 0; i < n_search; ++i)
     {
